@@ -341,6 +341,21 @@ func ruleTagNameSet(c *Ctx) {
 								}
 								seen[v] = true
 								switch x := v.(type) {
+								case *ssa.Parameter:
+									// the name reaches the predicate through a helper's parameter: look at every call site
+									hf := x.Parent()
+									for i, q := range hf.Params {
+										if q != x {
+											continue
+										}
+										for _, g := range p.Funcs {
+											eachInstr(g, func(y ssa.Instruction) {
+												if cl, ok := y.(*ssa.Call); ok && cl.Call.StaticCallee() == hf && i < len(cl.Call.Args) {
+													w(cl.Call.Args[i], d+1)
+												}
+											})
+										}
+									}
 								case *ssa.Slice:
 									w(x.High, d+1)
 									w(x.X, d+1)
@@ -451,3 +466,88 @@ func ruleTagNameSet(c *Ctx) {
 	}
 }
 
+
+// LOWER-TRANSIENT: the lower-cased name may live in the reusable scratch buffer; it must not be kept.
+func ruleLowerTransient(c *Ctx) {
+	c.Rule("LOWER-TRANSIENT", "maybeLower returns either its argument or the reusable scratch buffer, which the next call overwrites. Its result (followed through the parameters of module helpers it is passed to) is therefore only read — passed to FilterTag, compared, measured — and never stored into a field, a variable that outlives the statement, a slice element or a map: a remembered name would silently change when the next tag is lower-cased (a memoised verdict then answers for the wrong tag).")
+	p := c.P
+	ml := p.Func("maybeLower")
+	if !c.NeedFunc("LOWER-TRANSIENT", ml, "maybeLower") {
+		return
+	}
+	n := 0
+	var follow func(v ssa.Value, fn *ssa.Function, depth int, seen map[ssa.Value]bool) (bool, string, ssa.Instruction)
+	follow = func(v ssa.Value, fn *ssa.Function, depth int, seen map[ssa.Value]bool) (bool, string, ssa.Instruction) {
+		if seen[v] || depth > 4 {
+			return true, "", nil
+		}
+		seen[v] = true
+		for _, r := range refsOf(v) {
+			switch x := r.(type) {
+			case *ssa.Store:
+				if x.Val == v {
+					if al, ok := x.Addr.(*ssa.Alloc); ok && !al.Heap {
+						continue // a plain local
+					}
+					return false, "stored into memory: " + x.Addr.String(), x
+				}
+			case *ssa.MapUpdate:
+				return false, "stored into a map", x
+			case *ssa.Phi, *ssa.Slice, *ssa.ChangeType, *ssa.Convert:
+				if ok, why, at := follow(x.(ssa.Value), fn, depth, seen); !ok {
+					return false, why, at
+				}
+			case *ssa.MakeInterface:
+				return false, "boxed into an interface", x
+			case ssa.CallInstruction:
+				g := x.Common().StaticCallee()
+				if g == nil || !p.InModule(g) || g.Blocks == nil {
+					continue // FilterTag (dynamic), bytes.Equal, len, ...: reads
+				}
+				for i, a := range x.Common().Args {
+					if a == v && i < len(g.Params) {
+						if ok, why, at := follow(g.Params[i], g, depth+1, seen); !ok {
+							return false, why, at
+						}
+					}
+				}
+			case *ssa.Return:
+				// returned to the caller: follow the call results
+				for _, caller := range p.Funcs {
+					var bad ssa.Instruction
+					var badWhy string
+					eachInstr(caller, func(y ssa.Instruction) {
+						if cl, ok := y.(*ssa.Call); ok && cl.Call.StaticCallee() == fn && fn != ml {
+							if ok2, why, at := follow(cl, caller, depth+1, seen); !ok2 {
+								bad, badWhy = at, why
+							}
+						}
+					})
+					if bad != nil {
+						return false, badWhy, bad
+					}
+				}
+			}
+		}
+		return true, "", nil
+	}
+	for _, fn := range p.Funcs {
+		eachInstr(fn, func(in ssa.Instruction) {
+			call, ok := in.(*ssa.Call)
+			if !ok || call.Call.StaticCallee() != ml {
+				return
+			}
+			n++
+			key := fmt.Sprintf("%s:maybeLower#%d", shortFuncName(fn), n)
+			ok2, why, at := follow(call, fn, 0, map[ssa.Value]bool{})
+			pos := in.Pos()
+			if at != nil {
+				pos = at.Pos()
+			}
+			c.Check(ok2, "LOWER-TRANSIENT", key, pos, "the lower-cased name is kept: "+why)
+		})
+	}
+	if n < 1 {
+		c.Undecided("LOWER-TRANSIENT", "instance-count", ml.Pos(), "maybeLower is never called")
+	}
+}
